@@ -11,13 +11,13 @@ VARIABLES i, bad
 vars == <<i, bad>>
 V(o, cl, j, got) == [id |-> o.id, clause |-> cl, j |-> j, got |-> got]
 CheckCase(o) ==
-    {V(o, "Hermite.value", j, o.vu[j]) : j \in {j \in 1..Len(o.vu) : o.vu[j] > HermiteUnits}}
-    \cup {V(o, "Hermite.gradient", j, o.gu[j]) : j \in {j \in 1..Len(o.gu) : o.gu[j] > HermiteUnits}}
-    \cup (IF o.atEnd /\ ~o.endValExact THEN {V(o, "Hermite.endValue", 0, 0)} ELSE {})
-    \cup (IF o.atEnd /\ ~o.endGradExact THEN {V(o, "Hermite.endSlope", 0, 0)} ELSE {})
-    \cup (IF o.agree THEN {} ELSE {V(o, "Hermite.scalarVsArray", 0, 0)})
+    {V(o, "C17.Hermite.value", j, o.vu[j]) : j \in {j \in 1..Len(o.vu) : o.vu[j] > HermiteUnits}}
+    \cup {V(o, "C17.Hermite.gradient", j, o.gu[j]) : j \in {j \in 1..Len(o.gu) : o.gu[j] > HermiteUnits}}
+    \cup (IF o.atEnd /\ ~o.endValExact THEN {V(o, "C17.Hermite.endValue", 0, 0)} ELSE {})
+    \cup (IF o.atEnd /\ ~o.endGradExact THEN {V(o, "C17.Hermite.endSlope", 0, 0)} ELSE {})
+    \cup (IF o.agree THEN {} ELSE {V(o, "C17.Hermite.scalarVsArray", 0, 0)})
 Coverage == IF Cardinality({<<Cases[k].variant, Cases[k].t0, Cases[k].t1, Cases[k].k>> : k \in 1..Len(Cases)}) = In.expectedCases
-            THEN {} ELSE {[id |-> -1, clause |-> "Hermite.coverage", j |-> 0, got |-> Len(Cases)]}
+            THEN {} ELSE {[id |-> -1, clause |-> "C17.Hermite.coverage", j |-> 0, got |-> Len(Cases)]}
 Init == i = 1 /\ bad = {}
 Next == /\ i <= Len(Cases)
         /\ bad' = bad \cup CheckCase(Cases[i])
